@@ -248,7 +248,10 @@ result (its effect does not depend on what the earlier, read-only sections obser
 result is never used, then an unconditional store).  These take `τ` steps before their `lin`. -/
 def lastSectionOps : List (String × String) := [("heap.Heap", "Clear"), ("cache.Cache", "Update")]
 
-def lockedSections (p : PathEntry) : Nat := (p.sects.filter (fun s => s.mode.isSome)).length
+/-- the number of separate steps a path takes on the shared state: its locked sections, plus one when it also touches a
+`sync/atomic` field outside them (flag `atomicOutsideLock` of the regenerated table) -/
+def lockedSections (p : PathEntry) : Nat :=
+  (p.sects.filter (fun s => s.mode.isSome)).length + (if p.flags.contains "atomicOutsideLock" then 1 else 0)
 
 /-- all sections but the last are read-only -/
 def onlyLastWrites (p : PathEntry) : Bool :=
